@@ -713,6 +713,7 @@ class RecvNowait(RecvUnit):
 
 class Receive(RecvUnit):
     method = "receive"
+    split = (2, 4, 2)  # spread the paths over several processes (first decisions: checkpoint outcome, receive_nowait case, ...)
     contract = Contract(
         "MemoryObjectReceiveStream.receive",
         requires=lambda h, a: [],
@@ -926,6 +927,7 @@ class SendNowait(SendItemUnit):
 
 class Send(SendItemUnit):
     method = "send"
+    split = (2, 4, 2)
     contract = Contract(
         "MemoryObjectSendStream.send",
         requires=lambda h, a: [],
